@@ -100,7 +100,9 @@ func c12Observe(b *abs.Built, cache *graphql.PlanCache, rid int, r *c12Req, proc
 	if text == "FULL_INTROSPECTION" {
 		text = testutil.IntrospectionQuery
 	}
-	rc := &abs.RunCtx{Built: b, Root: rootObject, RootTag: "r", Outs: c12Outs(r.Outs)}
+	// resolvers change the argument map they are given and String leaves echo the arguments they saw: a plan
+	// that hands one call's arguments to another changes the response
+	rc := &abs.RunCtx{Built: b, Root: rootObject, RootTag: "r", Outs: c12Outs(r.Outs), MutateArgs: true, EchoArgs: true}
 	var res *graphql.Result
 	var pan string
 	vars := c12Vars(r.Vars)
@@ -198,7 +200,7 @@ func init() {
 					return
 				}
 				st.Add("vectors", 1)
-				for _, mode := range []string{"do", "cache"} {
+				for _, mode := range []string{"do", "cache", "plaincache"} {
 					// a fresh schema per history: map iteration at construction is part of what is tested
 					b, err := abs.Build(base.Abs)
 					if err != nil {
@@ -208,6 +210,8 @@ func init() {
 					var cache *graphql.PlanCache
 					if mode == "cache" {
 						cache = graphql.NewPlanCache(graphql.PlanCacheOptions{MaxEntries: 2, Normalize: true})
+					} else if mode == "plaincache" {
+						cache = graphql.NewPlanCache(graphql.PlanCacheOptions{MaxEntries: 2})
 					}
 					var lines []interface{}
 					for _, q := range v.Hist {
